@@ -212,6 +212,12 @@ def rule_dof_guard(F, ev, R, config, rule="R-DOF-GUARD", checked=True):
                             recv = ev.operand(xenv, cons[0]["term"]["args"][0], (cons[0]["block"], None))
                             if contains(recv, lambda x: x[0] == "call" and x[1].endswith("checked_sub") and x[3] == (n, tot)):
                                 okk = True
+                        # … or of a value that is present exactly when N > M+P (`(n > total).then(..).ok_or(Underdetermined)`)
+                        only_if = returned_only_if(ev, xb, xenv, es["place"]["l"]) if not es["place"]["proj"] else None
+                        for t_, tr in (only_if or []):
+                            for t2, tr2 in expand_bool(t_, tr):
+                                if canon_rel(t2, tr2) in (("Le", n, tot), ("Lt", n, tot)):
+                                    okk = True
                     R.add(rule, config, xb.key, "underdetermined-iff", okk,
                           "" if okk else "Err(Underdetermined) can be produced without N ≤ M+P", es.get("span"))
     # an Underdetermined error produced anywhere else in the crate is not covered by the analysis above
